@@ -63,7 +63,12 @@ MANIFEST = dict(
          "single value of a key removes exactly that key (before the fix delete removed nothing and pop returned a value "
          "that stayed); pop, recursive pruning through hidden indexes (o[0]/p/q, h[1][0]/x on an element of a list, where "
          "the index written as a step of its own is passed over so that the element shifting into the place is not pruned) "
-         "are instances (C05_hidden_list_ok) + the histories, which render hidden indexes on any non-list node of a path.",
+         "are instances (C05_hidden_list_ok) + the histories, which render hidden indexes on any non-list node of a path. "
+         "Worker c05hidden: C05_pop_hidden_list (pop, both recursively values, through name[e] on the single value of a key: "
+         "returns that value, tree = delAt resp. pruneUp of it = what delete yields), C05_delete_rec_hidden_list "
+         "(delete(recursively=True) through name[e] = pruneUp over the real ancestors = delete of the canonical path), "
+         "C05_delete_hidden_list_elem (h[i][e] on an element of a list that is not a list: lookup, delete and pop, both "
+         "recursively values, equal those of the canonical path h[i]).",
     design_ref="5/C05",
 )
 
